@@ -15,9 +15,12 @@
   (`inv*kernel` rounded before the convolution instead of the convolution output being scaled) is
   not visible over ℚ; the harness bounds it (2 ulp × fan-in) on the real code.
 
+  Fixed (PENDING-center): center=False used to raise (`inv * (bias - mean) + beta` with
+  `beta = None`); with `if beta is None: beta = 0.` the folded layers are total and equal
+  conv → BatchNormalization(center=False) (C15_callable, C15_center_false_regression; C15_fold_identity
+  has no hypothesis on beta any more).
+
   Findings mirrored here:
-   * center=False: `inv * (bias - mean) + beta` with `beta = None` raises — the folded layers cannot
-     be called (C15_center_false_counterexample) while conv→BN is fine.
    * convert_to_folded_model / model_quantize(enable_bn_folding=True) delete the BatchNormalization
      layers and never transfer their parameters: the returned model computes a different function
      (C15_to_folded_as_coded_counterexample); what is proved is the intended conversion
@@ -52,13 +55,12 @@ def convThenBN (L : Folded) (rs : ℚ → ℚ) (x : T) : T :=
 /-- whole layer, both classes, both folding modes, with or without bias / gamma: without quantizers
     the folded layer at inference equals conv → BN with the same parameters -/
 theorem C15_fold_identity (L : Folded) (rs : ℚ → ℚ) (bs : BatchStats) (x : T)
-    (hq : L.qk = none) (hb : L.qb = none) (ha : L.act = none) (hc : L.bn.beta.isSome) :
+    (hq : L.qk = none) (hb : L.qb = none) (ha : L.act = none) :
     L.callInference rs bs x = some (convThenBN L rs x) := by
-  obtain ⟨bt, hbt⟩ := Option.isSome_iff_exists.mp hc
   have hsel : selectStats L.mode false L.bn bs = (L.bn.var, L.bn.var, L.bn.mean) := by
     unfold selectStats; cases L.mode <;> simp
   unfold Folded.callInference convThenBN BN.infer Plain.call
-  simp only [hsel, hq, hb, ha, hbt, foldedBias, applyOpt]
+  simp only [hsel, hq, hb, ha, foldedBias, applyOpt]
   congr 1
   set inv := mulGamma L.bn.gamma (rsqrtVec rs L.bn.var L.bn.eps) with hinv
   rw [biasAdd_convOp]
@@ -176,32 +178,28 @@ example : WellShaped exL := ⟨by decide, by decide, by intro gm h; cases h; dec
 
 /-- `get_folded_weights()` element by element is the formula of the property:
     folded kernel = kernel * gamma * rsqrt(var+eps) on the kernel's output channel,
-    folded bias   = (bias - mean) * gamma * rsqrt(var+eps) + beta -/
+    folded bias   = (bias - mean) * gamma * rsqrt(var+eps) + beta   (beta = 0 when center=False) -/
 theorem C15_folded_weights_spec (L : Folded) (rs : ℚ → ℚ) (fk fb : T) (hs : WellShaped L)
     (hw : L.foldedWeights rs = some (fk, fb)) :
     fk.length = L.kernel.length ∧ fb.length = L.cfg.cout ∧
     (∀ t, t < L.kernel.length →
         fk.getD t 0 = L.kernel.getD t 0 * invSpec L.bn rs (kernelChannel L.cfg t)) ∧
-    (∀ c, c < L.cfg.cout → ∃ bt, L.bn.beta = some bt ∧
+    (∀ c, c < L.cfg.cout →
         fb.getD c 0 = ((match L.bias with | none => 0 | some b => b.getD c 0) - L.bn.mean.getD c 0)
-            * invSpec L.bn rs c + bt.getD c 0) := by
+            * invSpec L.bn rs c + (match L.bn.beta with | none => 0 | some bt => bt.getD c 0)) := by
   unfold Folded.foldedWeights at hw
-  cases hbeta : L.bn.beta with
-  | none => simp [foldedBias, hbeta] at hw
-  | some bt =>
-    simp only [foldedBias, hbeta, Option.some.injEq, Prod.mk.injEq] at hw
-    obtain ⟨h1, h2⟩ := hw
-    subst h1 h2
-    refine ⟨?_, ?_, ?_, ?_⟩
-    · unfold scaleKernel scaleKernelConv scaleKernelDw; cases L.cfg.cls <;> simp
-    · exact length_tabulate _ _
-    · intro t _
-      rw [getD_scaleKernel, getD_inv _ _ _ (by rw [hs.var]; exact kernelChannel_lt _ _ hs.pos)]
-      ring
-    · intro c hc
-      refine ⟨bt, rfl, ?_⟩
-      rw [getD_tabulate _ hc, getD_inv _ _ _ (by rw [hs.var]; exact hc)]
-      cases L.bias <;> (dsimp only; ring)
+  simp only [foldedBias, Option.some.injEq, Prod.mk.injEq] at hw
+  obtain ⟨h1, h2⟩ := hw
+  subst h1 h2
+  refine ⟨?_, ?_, ?_, ?_⟩
+  · unfold scaleKernel scaleKernelConv scaleKernelDw; cases L.cfg.cls <;> simp
+  · exact length_tabulate _ _
+  · intro t _
+    rw [getD_scaleKernel, getD_inv _ _ _ (by rw [hs.var]; exact kernelChannel_lt _ _ hs.pos)]
+    ring
+  · intro c hc
+    rw [getD_tabulate _ hc, getD_inv _ _ _ (by rw [hs.var]; exact hc)]
+    cases L.bias <;> cases L.bn.beta <;> (dsimp only; ring)
 
 /-! ### 4. unfolding -/
 
@@ -274,54 +272,69 @@ theorem C15_unfold_model (rs : ℚ → ℚ) (x : T) (n n' : Net) (h : n.unfoldAl
     obtain ⟨a', ha, b', hb, rfl⟩ := h
     simp only [Net.eval, iha a' ha, ihb b' hb]
 
-/-- the unfolding exists as soon as every folded layer has a beta -/
-theorem C15_unfold_model_exists (rs : ℚ → ℚ) (L : Folded) (a a' : Net) (i : ℕ)
-    (hb : L.bn.beta.isSome) (ha : a.unfoldAll rs = some a') :
-    ((Net.folded i L a).unfoldAll rs).isSome := by
-  obtain ⟨bt, hbt⟩ := Option.isSome_iff_exists.mp hb
-  simp [Net.unfoldAll, ha, Folded.unfold, Folded.foldedWeights, foldedBias, hbt]
+/-- the unfolding of every network exists (center=False included, since PENDING-center) -/
+theorem C15_unfold_model_exists (rs : ℚ → ℚ) (n : Net) : (n.unfoldAll rs).isSome := by
+  induction n with
+  | input => simp [Net.unfoldAll]
+  | conv i P a ih => obtain ⟨a', ha⟩ := Option.isSome_iff_exists.mp ih; simp [Net.unfoldAll, ha]
+  | bn j p c a ih => obtain ⟨a', ha⟩ := Option.isSome_iff_exists.mp ih; simp [Net.unfoldAll, ha]
+  | folded i L a ih =>
+    obtain ⟨a', ha⟩ := Option.isSome_iff_exists.mp ih
+    simp [Net.unfoldAll, ha, Folded.unfold, Folded.foldedWeights, foldedBias]
+  | un i f a ih => obtain ⟨a', ha⟩ := Option.isSome_iff_exists.mp ih; simp [Net.unfoldAll, ha]
+  | bin i f a b iha ihb =>
+    obtain ⟨a', ha⟩ := Option.isSome_iff_exists.mp iha
+    obtain ⟨b', hb⟩ := Option.isSome_iff_exists.mp ihb
+    simp [Net.unfoldAll, ha, hb]
 
-/-! ### 5. center=False (finding C15-center-false) -/
+/-! ### 5. center=False (fixed: PENDING-center) -/
 
-/-- COUNTEREXAMPLE: with `center=False` (`beta is None`) `inv * (bias - mean) + beta` raises, so
-    neither `call` nor `get_folded_weights` produces anything, for every input — while the
-    reference conv → BatchNormalization(center=False) is well defined.  The property's quantifier
-    "× use_bias/center/scale" therefore fails on the real code at center=False. -/
-theorem C15_center_false_counterexample (L : Folded) (rs : ℚ → ℚ) (bs : BatchStats) (x : T)
-    (h : L.bn.beta = none) :
-    L.callInference rs bs x = none ∧ L.foldedWeights rs = none ∧ L.unfold rs = none := by
+/-- FULL STATEMENT (was `C15_callable_partial` with hypothesis `beta.isSome`, next to
+    `C15_center_false_counterexample`): the folded layer, its folded weights and its unfolding are
+    defined for every configuration — center=False included — and every input -/
+theorem C15_callable (L : Folded) (rs : ℚ → ℚ) (bs : BatchStats) (x : T) :
+    (L.callInference rs bs x).isSome ∧ (L.foldedWeights rs).isSome ∧ (L.unfold rs).isSome := by
   unfold Folded.unfold Folded.callInference Folded.foldedWeights foldedBias
-  simp [h]
+  simp
 
-/-- … and that is the only way the folded layer fails -/
-theorem C15_callable_partial (L : Folded) (rs : ℚ → ℚ) (bs : BatchStats) (x : T)
-    (h : L.bn.beta.isSome) : (L.callInference rs bs x).isSome ∧ (L.foldedWeights rs).isSome := by
-  obtain ⟨bt, hbt⟩ := Option.isSome_iff_exists.mp h
-  unfold Folded.callInference Folded.foldedWeights foldedBias
-  simp [hbt]
+/-- center=False is conv → BatchNormalization(center=False): `C15_fold_identity` at `beta = none`,
+    where the reference `BN.infer` uses offset 0 -/
+theorem C15_center_false (L : Folded) (rs : ℚ → ℚ) (bs : BatchStats) (x : T)
+    (hq : L.qk = none) (hb : L.qb = none) (ha : L.act = none) (_h : L.bn.beta = none) :
+    L.callInference rs bs x = some (convThenBN L rs x) :=
+  C15_fold_identity L rs bs x hq hb ha
+
+/-- REGRESSION WITNESS of the repaired defect: the layer of `exL` with center=False
+    (x = 3, kernel 2, bias 1, gamma 4, mean 1, rs ≡ 1/2) used to raise; it now returns
+    2*4/2*3 + 4/2*(1-1) + 0 = 12, the value of conv → BN(center=False), and its folded weights are
+    ([4], [0]) -/
+theorem C15_center_false_regression :
+    let L : Folded := { exL with bn := { exBN with beta := none } }
+    L.callInference (fun _ => 1/2) noStats [3] = some [12] ∧ convThenBN L (fun _ => 1/2) [3] = [12] ∧
+      L.foldedWeights (fun _ => 1/2) = some ([4], [0]) := by
+  refine ⟨?_, ?_, ?_⟩ <;> decide +kernel
 
 /-! ### 6. converting a conv+BN network to a folded network -/
 
 /-- INTENDED conversion (every selected `conv → BatchNormalization` pair becomes one folded layer
     carrying both parameter sets): the network function is unchanged, for every set `S` of fold
     sites, either folding mode, sequential or branched networks, arbitrary other layers.
-    Hypotheses: the convs in front of batch norms are stock (no quantizer, linear activation) and
-    the batch norms have beta. -/
+    Hypothesis: the convs in front of batch norms are stock (no quantizer, linear activation);
+    center=False batch norms are fine since PENDING-center. -/
 theorem C15_to_folded (S : ℕ → Bool) (mode : FoldMode) (rs : ℚ → ℚ) (x : T) (n : Net)
-    (hf : n.foldable) (hc : n.centered) : (n.fold S mode).eval rs x = n.eval rs x := by
+    (hf : n.foldable) : (n.fold S mode).eval rs x = n.eval rs x := by
   fun_induction Net.fold S mode n with
   | case1 => rfl
-  | case2 i P a ih => simp only [Net.eval]; rw [ih hf hc]
+  | case2 i P a ih => simp only [Net.eval]; rw [ih hf]
   | case3 j p cout i P a hS ih =>
     obtain ⟨hact, hqk, hqb, hco, hfa⟩ := hf
-    obtain ⟨hbeta, hca⟩ := hc
     simp only [Net.eval]
-    rw [ih hfa hca]
+    rw [ih hfa]
     cases a.eval rs x with
     | none => rfl
     | some v =>
       simp only [Option.bind_some, Option.map_some]
-      have := C15_fold_identity (foldLayer P p mode) rs noStats v hqk hqb hact hbeta
+      have := C15_fold_identity (foldLayer P p mode) rs noStats v hqk hqb hact
       rw [this]
       unfold convThenBN foldLayer
       simp only [hco]
@@ -330,21 +343,20 @@ theorem C15_to_folded (S : ℕ → Bool) (mode : FoldMode) (rs : ℚ → ℚ) (x
       rw [hP]
   | case4 j p cout i P a hS ih =>
     obtain ⟨_, _, _, _, hfa⟩ := hf
-    obtain ⟨_, hca⟩ := hc
-    simp only [Net.eval]; rw [ih hfa hca]
+    simp only [Net.eval]; rw [ih hfa]
   | case5 j p cout a hne ih =>
     have hfa : a.foldable := by
       cases a <;> first | exact hf | (exfalso; exact hne _ _ _ rfl)
-    simp only [Net.eval]; rw [ih hfa hc.2]
-  | case6 i L a ih => simp only [Net.eval]; rw [ih hf hc]
-  | case7 i f a ih => simp only [Net.eval]; rw [ih hf hc]
-  | case8 i f a b iha ihb => simp only [Net.eval]; rw [iha hf.1 hc.1, ihb hf.2 hc.2]
+    simp only [Net.eval]; rw [ih hfa]
+  | case6 i L a ih => simp only [Net.eval]; rw [ih hf]
+  | case7 i f a ih => simp only [Net.eval]; rw [ih hf]
+  | case8 i f a b iha ihb => simp only [Net.eval]; rw [iha hf.1, ihb hf.2]
 
 /-- a sequential conv → BN chain followed by a branch: hypotheses satisfiable, fold non-trivial -/
 def exPlain : Plain := { cfg := ⟨.conv, exGeom, 1⟩, kernel := [2], bias := some [1], qk := none, qb := none, act := none }
 def exNet : Net := .bin 3 (fun u v => List.zipWith (· + ·) u v) (.bn 2 exBN 1 (.conv 1 exPlain .input)) .input
-example : exNet.foldable ∧ exNet.centered := by
-  simp [exNet, Net.foldable, Net.centered, exPlain, exBN, LayerCfg.cout]
+example : exNet.foldable := by
+  simp [exNet, Net.foldable, exPlain, exBN, LayerCfg.cout]
 example : (exNet.fold (fun _ => true) .ema) =
     .bin 3 (fun u v => List.zipWith (· + ·) u v) (.folded 1 (foldLayer exPlain exBN .ema) .input) .input := rfl
 example : exNet.eval (fun _ => 1/2) [3] = some [20] := by decide +kernel
